@@ -58,6 +58,7 @@ func (s *Storage[PK, Col]) DelRow(primaryKey PK) {
 	if index, exists := s.primaryKeys[primaryKey]; exists {
 		delete(s.primaryKeys, primaryKey)
 		s.invalids = append(s.invalids, index)
+		s.clearRow(index)
 	}
 }
 
@@ -67,7 +68,15 @@ func (s *Storage[PK, Col]) DelRows(primaryKeys []PK) {
 		if index, exists := s.primaryKeys[primaryKey]; exists {
 			delete(s.primaryKeys, primaryKey)
 			s.invalids = append(s.invalids, index)
+			s.clearRow(index)
 		}
+	}
+}
+
+// clearRow 清空一行的列数据，使该行被复用时以默认值填充
+func (s *Storage[PK, Col]) clearRow(index int) {
+	for _, c := range s.columns {
+		c.data.Set(index, nil)
 	}
 }
 
